@@ -11,7 +11,8 @@ BUDGET = {'quick': 1500, 'thorough': 60000}
 CAP_S = {'quick': 150, 'thorough': 3000}
 RULE = ('case = (hint over user classes defined in the generated module, rendered as source text: the class itself, Optional / Union / '
         'X | None / list / dict / tuple[..., ...] / type[...] / nested combinations; placement: module-level function, method of a class '
-        'nested 0-2 deep (decorated individually or through the class), closure 1-2 functions deep; spelling: string literal or '
+        'nested 0-2 deep (decorated individually or through the class; referring to the class itself, to a class-level alias shadowing an '
+        'outer one, or to a sibling class of the same nested body), closure 1-2 functions deep; spelling: string literal or '
         '"from __future__ import annotations"; order: the referenced class defined before the function, after it, or after the first '
         'call). A module is generated per case and executed under a registered module name. Differential oracle: for every probe object '
         'the string / postponed variant gives the verdict and violation class of the variant with evaluated annotations; calling before '
@@ -96,6 +97,37 @@ def render(case, spelling):
             lines += ['def _m(self, p: %s) -> %s:' % (ann_source(wrap, 'Target'), ann_source(wrap, 'Target')), '    return p',
                       '_m.__name__ = "meth"; _m.__qualname__ = "%s.meth"' % path, 'Target.meth = beartype(_m)']
         lines += ['class Sub(Target):', '    pass', 'FUNC = Target().meth']
+    elif place in ('nested-alias', 'nested2-alias'):
+        # a class-level alias that exists only in (and shadows an outer alias from) the body of the nested class that defines the
+        # method; evaluated annotations inside a class body resolve it to the innermost alias, so the reference is direct
+        depth = 1 if place == 'nested-alias' else 2
+        names = ['Outer', 'Mid', 'Inner'][:depth + 1]
+        lines += cls_block
+        ind = ''
+        for i, n in enumerate(names):
+            if i == 0:
+                lines.append('@beartype')
+            lines.append('%sclass %s:' % (ind, n))
+            ind += '    '
+            lines.append('%sKey = %s' % (ind, 'Target' if i == len(names) - 1 else 'str'))
+        lines += ['%sdef meth(self, p: %s) -> %s:' % (ind, ann('Key'), ann('Key')), '%s    return p' % ind]
+        lines += ['FUNC = %s().meth' % '.'.join(names)]
+    elif place in ('nested-sibling', 'nested2-sibling'):
+        # a sibling class defined in the same nested class body as the method (before it, or - for string spellings - after it)
+        depth = 1 if place == 'nested-sibling' else 2
+        names = ['Outer', 'Mid', 'Inner'][:depth + 1]
+        lines += ['class Other:', '    pass']
+        ind = ''
+        for i, n in enumerate(names):
+            if i == 0:
+                lines.append('@beartype')
+            lines.append('%sclass %s:' % (ind, n))
+            ind += '    '
+        slot = ['%sclass Slot:' % ind, '%s    pass' % ind]
+        meth = ['%sdef meth(self, p: %s) -> %s:' % (ind, ann('Slot'), ann('Slot')), '%s    return p' % ind]
+        lines += (slot + meth) if classes_first else (meth + slot)
+        path = '.'.join(names)
+        lines += ['Target = %s.Slot' % path, 'class Sub(Target):', '    pass', 'FUNC = %s().meth' % path]
     elif place in ('closure', 'closure2'):
         depth = 1 if place == 'closure' else 2
         ind = ''
@@ -151,7 +183,8 @@ def verdicts(mod, wrap):
 
 def strategy(tier):
     return st.fixed_dictionaries({
-        'place': st.sampled_from(['module', 'module', 'method', 'method-classdeco', 'nested-method', 'nested2-method', 'closure', 'closure2']),
+        'place': st.sampled_from(['module', 'module', 'method', 'method-classdeco', 'nested-method', 'nested2-method', 'closure', 'closure2',
+                                  'nested-alias', 'nested2-alias', 'nested-sibling', 'nested2-sibling']),
         'wrap': st.sampled_from(WRAPS), 'order': st.sampled_from(['class-first', 'class-later', 'class-after-first-call']),
         'spelling': st.sampled_from(['str', 'future']),
     })
